@@ -52,6 +52,9 @@ K_CAP = 8.0
 #   normalisation), independent of the quadrature: median 0, max 8.6e-15 relative to max|G|  ->  100 x max
 PAIR_RTOL = 1e-12
 ABS_FLOOR = 1e-6
+#   a reused calculator (SetRates called before with other rates) vs a fresh one: same arithmetic on the same inputs; measured
+#   differences 0 (bit-identical) on the unchanged tree  ->  1e-10 relative to max|G|
+HIST_RTOL = 1e-10
 
 
 def pyrope():
@@ -256,10 +259,26 @@ def lattice_index(case):
     return g
 
 
+HIST2 = ["square", "rect", "tria", "honeycomb", "sq2w"]
+HIST3 = ["sc", "fcc", "bcc", "tet", "ortho", "hcp", "diamond", "b2"]
+
+
 def gen_case(rng, nprng, dim, Nmax, label=None):
     if label == "pyrope":
         crys, chem, cut = pyrope()
         sl = crys.sitelist(chem); jn = crys.jumpnetwork(chem, cut)
+    elif label == "history":
+        # a named lattice with at least two jump types (cutoff beyond the second shell)
+        nm = rng.choice(HIST2 if dim == 2 else HIST3)
+        crys, chem = gen.named(nm)
+        if crys.N > 1 and rng.random() < 0.5: crys = gen.shuffled(crys, rng)
+        sh = gen.shells(crys, chem)
+        sl = crys.sitelist(chem); jn = None
+        for k in (1, 2, 3):
+            cut = sh[k] + 1e-4
+            jn = crys.jumpnetwork(chem, cut)
+            if len(jn) >= 2: break
+        label = nm + "~hist"
     else:
         for _ in range(50):
             lab, crys, chem = next(gen.pool(rng, 1, dims=(dim,), random_frac=0.55, maxatoms=3))
@@ -276,9 +295,29 @@ def gen_case(rng, nprng, dim, Nmax, label=None):
     return case
 
 
-def evaluate(case, rng, nrand=6, npairs=8):
-    """everything measured on one case"""
-    g = case.calc(case.Nmax); g2 = case.calc(case.Nmax + 2)
+def other_rates(case, rng, nprng):
+    """a different rate set for the same network: NOT a uniform rescaling of case.data (every transition class gets its own
+    random factor and barrier shift, site energies change as well)"""
+    pre, bE, preT, bET = case.data
+    bE2 = [x + nprng.uniform(-0.7, 0.7) for x in bE]
+    return ([x * nprng.uniform(0.5, 2) for x in pre], bE2, [x * nprng.uniform(0.3, 3) for x in preT],
+            [max(bE2) + nprng.uniform(0.2, 2.5) for _ in bET])
+
+
+def evaluate(case, rng, nrand=6, npairs=8, history=0, nprng=None):
+    """everything measured on one case.  history = k > 0: the calculator under test is ONE object that has already been given
+    k other (non-uniformly different) rate sets through SetRates before the rates of the case; everything (equation, pairs,
+    Coq evaluation) is then measured on that reused calculator, and its values must equal those of a fresh calculator."""
+    fresh = case.calc(case.Nmax); g2 = case.calc(case.Nmax + 2)
+    g = fresh
+    hist = None
+    if history:
+        from onsager import GFcalc
+        g = GFcalc.GFCrystalcalc(case.crys, case.chem, case.sl, case.jn, Nmax=case.Nmax)
+        for _ in range(history):
+            g.SetRates(*other_rates(case, rng, nprng))
+            g(0, 0, np.zeros(case.crys.dim))          # use it, as a caller would
+        g.SetRates(*case.data)
     lam = rng.choice([0.25, 3.0, 7.5])
     gs = case.calc(case.Nmax, scale=lam)
     pts = patch(case, g, rng, nrand)
@@ -289,13 +328,19 @@ def evaluate(case, rng, nrand=6, npairs=8):
     gmax = max(abs(v) for v in tab.values())
     D = case.exactD()
     far = far_field(case, g2, rng, D) if case.crys.dim == 3 else []
-    return dict(g=g, pts=pts, tab=tab, res=res, conv=conv, pairs=pairs, gmax=gmax, D=D, far=far, lam=lam,
+    if history:
+        # the reused calculator against a fresh one with the same rates, at every tested endpoint (incl. a far one)
+        keys = list(tab.keys())
+        q = [max(1, int(p_) // 4) for p_ in g.kptgrid]
+        keys.append((0, case.N - 1, tuple(q)))
+        hist = max(abs(float(g(i, j, case.dx(i, j, R))) - float(fresh(i, j, case.dx(i, j, R)))) for (i, j, R) in keys)
+    return dict(g=g, pts=pts, tab=tab, res=res, conv=conv, pairs=pairs, gmax=gmax, D=D, far=far, lam=lam, hist=hist,
                 Derr=float(np.abs(g.D - D).max() / np.abs(D).max()))
 
 
 def run(ck):
     ck.rule = ("crystal pool (2-D and 3-D, named + random crystal systems, 1-3 Wyckoff sets, plus the two-network pyrope Mg sublattice) x "
-               "percolating cutoff x random energies/prefactors x patch of endpoints (all site pairs at the origin, unit cells, diagonal, "
+               "percolating cutoff x random energies/prefactors (half of the multi-jump-type cases and a dedicated tier of named lattices with >= 2 jump types use ONE calculator object reused across 1-3 earlier, non-uniformly different rate sets, compared with a fresh calculator) x patch of endpoints (all site pairs at the origin, unit cells, diagonal, "
                "random cells up to a quarter of the k-mesh period); per case: residual of the diffusion equation at every patch point "
                "(numpy and exact in Coq), swap / random space-group image / rate-scaling pairs, 3-D far field; distinct = distinct "
                "(crystal, cutoff, data); non-trivial = more than one patch point")
@@ -306,13 +351,21 @@ def run(ck):
     rng = ck.rng
     plan = [(2, 4)] * ck.n(14, 90) + [(2, 6)] * ck.n(0, 15) + [(3, 2)] * ck.n(4, 40) + [(3, 3)] * ck.n(1, 20) + [(3, 4)] * ck.n(0, 5)
     plan += [("pyrope", 2)] * ck.n(1, 2)
+    # history tier: one calculator object reused across several rate sets (named lattices with >= 2 jump types)
+    plan += [("hist2", 4)] * ck.n(5, 30) + [("hist3", 2)] * ck.n(3, 16)
     terms, meta = [], []
-    stats = {"ratio_res_conv": [], "K_far": [], "pair_rel": [], "conv": [], "res": []}
+    stats = {"ratio_res_conv": [], "K_far": [], "pair_rel": [], "conv": [], "res": [], "history_rel": []}
     skipped = {"no-network": 0, "sublattice-network": 0}
     nsample = 0
     for spec, Nmax in plan:
         nr = ck.nprng(rng.randrange(1 << 30))
-        case = gen_case(rng, nr, 3 if spec == "pyrope" else spec, Nmax, label="pyrope" if spec == "pyrope" else None)
+        if spec in ("hist2", "hist3"):
+            case = gen_case(rng, nr, 2 if spec == "hist2" else 3, Nmax, label="history")
+            history = rng.choice([1, 2, 3])
+        else:
+            case = gen_case(rng, nr, 3 if spec == "pyrope" else spec, Nmax, label="pyrope" if spec == "pyrope" else None)
+            history = 0
+            if case not in (None, "sublattice") and len(case.jn) >= 2 and rng.random() < 0.5: history = rng.choice([1, 2])
         if case is None:
             skipped["no-network"] += 1; continue
         if case == "sublattice":
@@ -322,14 +375,23 @@ def run(ck):
         rep = {"crystal": repr(case.crys), "chem": case.chem, "cutoff": case.cut, "Nmax": Nmax,
                "pre": case.data[0], "bE": case.data[1], "preT": case.data[2], "bET": case.data[3]}
         try:
-            ev = evaluate(case, rng, nrand=ck.n(6, 12), npairs=ck.n(8, 16))
+            ev = evaluate(case, rng, nrand=ck.n(6, 12), npairs=ck.n(8, 16), history=history, nprng=nr)
         except (ArithmeticError, ValueError, IndexError, ZeroDivisionError, np.linalg.LinAlgError) as e:
             ck.case(key=(case.label, round(case.cut, 5), case.data[0], case.data[3], Nmax), nontrivial=True, kind="exception:%dD-N%d" % (case.crys.dim, case.N))
             ck.violation("GFCrystalcalc raised %r for a valid crystal / network / rates (point group order %d)" % (e, len(case.crys.G)), rep,
                          key="c10-complex-ift-exception" if "complex IFT" in str(e) else "c10-exception"); continue
         tol = max(ABS_FLOOR, RES_FACTOR * ev["conv"])
         worst = float(np.abs(ev["res"]).max())
-        kind = "%dD-N%d-Nmax%d-nd%d-%s" % (case.crys.dim, case.N, Nmax, ev["g"].Ndiff, case.label.split("-")[0])
+        kind = "%s%dD-N%d-J%d-Nmax%d-nd%d-%s" % ("reused%d:" % history if history else "", case.crys.dim, case.N, len(case.jn), Nmax, ev["g"].Ndiff,
+                                                case.label.split("-")[0])
+        if history:
+            stats["history_rel"].append(ev["hist"] / ev["gmax"])
+            ck.case(key=(case.label, round(case.cut, 5), case.data[0], case.data[3], "history", history), nontrivial=len(case.jn) >= 2, kind="history:" + kind)
+            if ev["hist"] > HIST_RTOL * ev["gmax"]:
+                ck.violation("history dependence: a calculator that was given %d other rate set(s) before returns G differing by %.3g (max|G| %.3g) "
+                             "from a fresh calculator with the same rates (%d jump types)" % (history, ev["hist"], ev["gmax"], len(case.jn)),
+                             {**rep, "history": history, "note": "earlier rate sets are drawn by other_rates(case, rng, nprng) from the run's seed"},
+                             key="c10-history")
         nsample += 1
         ck.case(key=(case.label, round(case.cut, 5), case.data[0], case.data[3], Nmax), nontrivial=len(ev["pts"]) > 1, kind=kind,
                 sample={"crystal": case.label, "Nmax": Nmax, "kptgrid": [int(x) for x in ev["g"].kptgrid], "points": len(ev["pts"]),
